@@ -5,19 +5,20 @@ From Coq Require Import List Arith Bool.
 Import ListNotations.
 From Heph Require Import Types.Syntax Types.Subst Types.Subtype Types.Decl IR.Syntax IR.Check IR.CheckProofs.
 
-Theorem accepted_position_is_justified : forall w a b,
-  assignable false w (TOk a) (Some b) = true ->
+Theorem accepted_position_is_justified : forall L w a b,
+  assignable false L w (TOk a) (Some b) = true ->
   match norm_expected (Some b) with
   | None => True
-  | Some b' => SubA w [] (unbox a) b' \/ is_assignable w 40 (unbox a) b' = Rt \/ sub_ref w 40 [] (unbox a) b' = Unk
+  | Some b' => SubA w [] (lhs L a) (rhs L b') \/ is_assignable w 40 (lhs L a) (rhs L b') = Rt \/
+               sub_ref w 40 [] (lhs L a) (rhs L b') = Unk
   end.
 Proof. exact assignable_accepts_lem. Qed.
 Print Assumptions accepted_position_is_justified.
 
-Theorem strictly_accepted_position_is_justified : forall w a b,
-  assignable true w (TOk a) (Some b) = true ->
+Theorem strictly_accepted_position_is_justified : forall L w a b,
+  assignable true L w (TOk a) (Some b) = true ->
   exists b', norm_expected (Some b) = Some b' /\
-             (SubA w [] (unbox a) b' \/ is_assignable w 40 (unbox a) b' = Rt).
+             (SubA w [] (lhs L a) (rhs L b') \/ is_assignable w 40 (lhs L a) (rhs L b') = Rt).
 Proof. exact assignable_strict_lem. Qed.
 Print Assumptions strictly_accepted_position_is_justified.
 
